@@ -221,7 +221,42 @@ func genRobustPlan(seed uint64, tier string) *Plan {
 				S: map[string]string{"how": "too-big-for-a-datagram-over-tcp"}}
 			data = b.Bytes()
 		}
-		if len(data) == 0 {
+		if g.chance(5) {
+			// a TCP peer that connects and says nothing, and stays: whoever connects after it must be served
+			id := g.nextID()
+			base = Op{Kind: "hostile", ID: id, Proto: "tcp", SrcIP: "10.1.0.3", Listen: g.intn(len(p.Cfg.Listens)), Conn: "h-" + id,
+				S: map[string]string{"how": "silent-connection"}}
+			data = []byte{}
+		} else if g.chance(6) {
+			// a stray answer that carries a dialog (both tags) from an address that is no backend, for a transaction the
+			// proxy never saw - then a request of that dialog
+			id := g.nextID()
+			li := g.intn(len(p.Cfg.Listens))
+			l := p.Cfg.Listens[li]
+			callID, ft, tt := "stray-"+id, g.tagValue(), g.tagValue()
+			rb := &sipwire.Builder{Start: "SIP/2.0 200 OK"}
+			rb.Add("Via", fmt.Sprintf("SIP/2.0/UDP %s:%d;branch=z9hG4bK%s", l.Addr, l.UDP, g.alnum(8, 12)))
+			rb.Add("Via", "SIP/2.0/UDP 10.1.0.1:5060;branch=z9hG4bK"+g.alnum(6, 10))
+			rb.Add("From", "<sip:a@caller.test>;tag="+ft)
+			rb.Add("To", "<sip:b@svc.example.com>;tag="+tt)
+			rb.Add("Call-ID", callID)
+			rb.Add("CSeq", "1 INVITE")
+			rb.Add("X-Sim-Id", id)
+			qb := &sipwire.Builder{Start: g.pick("ACK", "BYE", "INFO") + " sip:b@svc.example.com SIP/2.0"}
+			qb.Add("Via", "SIP/2.0/UDP 10.1.0.1:5060;branch=z9hG4bK"+g.alnum(6, 10))
+			qb.Add("From", "<sip:a@caller.test>;tag="+ft)
+			qb.Add("To", "<sip:b@svc.example.com>;tag="+tt)
+			qb.Add("Call-ID", callID)
+			qb.Add("CSeq", "2 "+strings.Fields(qb.Start)[0])
+			qb.Add("X-Sim-Id", id+".q")
+			base = Op{Kind: "hostile", ID: id, Proto: "udp", SrcIP: g.pick("10.1.0.3", "10.2.0.1"), SrcPort: g.pick2(5099, 40000+g.intn(100)), Listen: li,
+				S: map[string]string{"how": "stray-dialog-answer-then-request"}, Sub: []Op{{Kind: "msg", ID: id + ".q", Data: qb.Bytes()}}}
+			data = rb.Bytes()
+			if g.chance(40) {
+				base.I = map[string]int{"twice": 1} // the stray answer is retransmitted
+			}
+		}
+		if len(data) == 0 && base.S["how"] != "silent-connection" {
 			data = []byte("\r\n")
 		}
 		if base.Proto == "udp" && len(data) > 65000 {
@@ -403,6 +438,13 @@ func execRobust(t *testing.T, p *Plan) *Result {
 			if op.Proto == "udp" {
 				l := p.Cfg.Listens[op.Listen]
 				w.N.InjectUDP(udpAddr(hostPort(op.SrcIP, op.SrcPort)), udpAddr(hostPort(l.Addr, l.UDP)), op.Data, 100*time.Microsecond)
+				if op.I["twice"] == 1 {
+					w.N.InjectUDP(udpAddr(hostPort(op.SrcIP, op.SrcPort)), udpAddr(hostPort(l.Addr, l.UDP)), op.Data, 300*time.Microsecond)
+				}
+				for _, fo := range op.Sub {
+					w.K.Settle(10 * time.Second)
+					w.N.InjectUDP(udpAddr("10.1.0.1:5060"), udpAddr(hostPort(l.Addr, l.UDP)), fo.Data, 100*time.Microsecond)
+				}
 			} else {
 				l := p.Cfg.Listens[op.Listen]
 				c, err := w.TCPConnTo(op.Conn+"-x", op.SrcIP, 0, hostPort(l.Addr, l.TCP))
@@ -468,12 +510,16 @@ func execRobust(t *testing.T, p *Plan) *Result {
 					v("connection-with-undecodable-bytes-left-open", op.ID, sig, "the TCP connection carried bytes no message can be decoded from and was not closed by the proxy:\n%s", clip(string(op.Data), 300))
 				}
 			}
-			if conn != nil && !conn.Closed() {
+			if conn != nil && !conn.Closed() && how != "silent-connection" {
 				conn.Close()
 				w.K.Settle(time.Second)
 			}
 			if !sentinel(op.ID, how) && w.dead() {
 				return
+			}
+			if conn != nil && !conn.Closed() {
+				conn.Close()
+				w.K.Settle(time.Second)
 			}
 		}
 	})
